@@ -150,7 +150,9 @@ func GroupName(n int) string {
 	}
 	return "g" + strconv.Itoa(n)
 }
-func CronName(c int) string { return fmt.Sprintf("*/%d * * * *", c) }
+// CronName: crontab number c as a crontab that never fires by itself (the 30th of February),
+// so that the operator's real cron scheduler can run; ticks are injected by the harness.
+func CronName(c int) string { return fmt.Sprintf("%d 0 30 2 *", c) }
 
 var hookIdRe = regexp.MustCompile(`h(\d{3})`)
 
@@ -866,7 +868,7 @@ func (s *Sim) Do(a Action) StepObs {
 	switch a.Kind {
 	case "Boot":
 		if !s.booted {
-			s.Op.VerifStart()
+			s.Op.VerifStartReal()
 			s.booted = true
 			// the operator's metrics loop (runMetrics) walks the queue set periodically while the
 			// events handler adds tasks: do the same, much more often
